@@ -161,6 +161,16 @@ def f_ct_param_quote(m):
     m["ctype"] = b'Content-Type: text/plain; charset="us-ascii"; name="a \\"quoted\\" name.txt"'
 
 
+def f_cdisp_bare(m):
+    m["extra"].append(("Content-Disposition", b"inline"))
+
+
+def f_mime_parts_bare_disp(m):
+    h, b = _multipart(b"BDISP", [b"Content-Type: text/plain\r\nContent-Disposition: attachment\r\n\r\npart one\r\n",
+                                 b"Content-Type: text/plain; charset=us-ascii\r\nContent-Disposition: inline; filename=\"x.txt\"\r\n\r\npart two\r\n"])
+    m["ctype"], m["body"] = h, b
+
+
 def f_ct_param_spaces(m):
     m["ctype"] = b'Content-Type: application/octet-stream; name="a  b .txt"'
     m["extra"].append(("Content-Disposition", b'attachment; filename=" lead  and trail "'))
@@ -188,6 +198,11 @@ def f_cte_b64(m):
 
 def f_body_empty(m):
     m["body"] = b""
+
+
+def f_body_ctrl(m):
+    # characters str.splitlines() treats as line boundaries although they are not: FF, VT, FS, GS, RS (and a lone one at the end)
+    m["body"] = b"page one\x0cpage two\r\ncol\x0bumn\x1cfs\x1dgs\x1ers\r\nlast\x0c"
 
 
 def f_body_oneblank(m):
